@@ -103,3 +103,52 @@ Fixpoint adjust_lines (ls : list str) (st : mstate) (margin : option str) : list
   end.
 
 Definition adjust_whitespace (text : str) : str := join_lf (adjust_lines (split_lines text []) m0 None).
+
+(* ---- the printer side: PythonPrinter._flush_adjusted_lines (mako/pygen.py:236-250) re-indents a
+   buffered block to the current indentation level, with its own multi-line detector
+   (_in_multi_line, pygen.py:211-234): a trailing backslash, and an odd number of triple-quote
+   tokens on the line, counted by re.findall wherever they stand *)
+Fixpoint count_triples (l : str) (skip : nat) : nat :=
+  match l with
+  | [] => O
+  | _ :: r =>
+      match skip with
+      | S k => count_triples r k
+      | O => if starts_with (delim QD) l || starts_with (delim QS) l then S (count_triples r 2) else count_triples r 0
+      end
+  end.
+
+Record pstate := { p_backslashed : bool; p_triple : bool }.
+Definition p0 : pstate := {| p_backslashed := false; p_triple := false |}.
+
+Definition p_in_multi_line (st : pstate) (l : str) : bool * pstate :=
+  (p_backslashed st || p_triple st,
+   {| p_backslashed := ends_with_backslash l;
+      p_triple := if Nat.odd (count_triples l 0) then negb (p_triple st) else p_triple st |}).
+
+(* _indent_line(entry, stripspace) *)
+Definition indent_line (ind : str) (margin : option str) (l : str) : str :=
+  match margin with
+  | None => l                                     (* the pattern "^None" matches no blank or comment line *)
+  | Some [] => ind ++ l
+  | Some m => match strip_prefix m l with Some r => ind ++ r | None => l end
+  end.
+
+Fixpoint flush_lines (ind : str) (ls : list str) (st : pstate) (margin : option str) : list str :=
+  match ls with
+  | [] => []
+  | l :: r =>
+      let (inside, st') := p_in_multi_line st l in
+      if inside then l :: flush_lines ind r st' margin
+      else
+        let l1 := expandtabs l 0 in
+        let margin' := match margin with
+                       | None => if sets_margin l1 then Some (leading_blanks l1) else None
+                       | Some _ => margin
+                       end in
+        indent_line ind margin' l1 :: flush_lines ind r st' margin'
+  end.
+
+(* write_indented_block(block) at indentation level n, then a flush: the lines written *)
+Definition flush_block (level : nat) (block : str) : list str :=
+  flush_lines (concat (repeat (s2l "    ") level)) (split_lines block []) p0 None.
